@@ -78,11 +78,24 @@ Qed.
 Lemma is_some_true {A} (o : option A) : is_some o = true <-> is_Some o.
 Proof. destruct o; cbn; split; intros H; eauto; try discriminate. destruct H; discriminate. Qed.
 
+Lemma chk_isame_core b d r : chk_isame d r = true -> chk_core_upto b r = chk_core_upto b d.
+Proof.
+  unfold chk_isame, chk_cmp, chk_core_upto. intros H. apply bool_decide_eq_true in H.
+  injection H as E1 E2 E3 E4 E5 E6. rewrite E1, E2, E3, E4. reflexivity.
+Qed.
+
+Lemma keep_same_core old r : chk_core (keep_same old r) = chk_core r /\ ck_sid (keep_same old r) = ck_sid r.
+Proof.
+  unfold keep_same. destruct old as [o|]; [|auto]. destruct (chk_isame o r) eqn:E; [|auto].
+  split; [symmetry; apply (chk_isame_core false); exact E|].
+  unfold chk_isame, chk_cmp in E. apply bool_decide_eq_true in E. congruence.
+Qed.
+
 Lemma cat_register_Some ni skip sv chks c c' :
   cat_register ni skip sv chks c = Some c' ->
   c_node c' = reg_node ni skip (c_node c) /\
   c_svcs c' = reg_svcs sv (c_svcs c) /\
-  c_chks c' = omap (stamp (reg_svcs sv (c_svcs c))) chks ∪ c_chks c /\
+  c_chks c' = merge (reg_chk (reg_svcs sv (c_svcs c))) chks (c_chks c) /\
   (forall k d, chks !! k = Some d -> is_Some (stamp (reg_svcs sv (c_svcs c)) d)).
 Proof.
   unfold cat_register.
@@ -104,16 +117,14 @@ Proof.
 Qed.
 
 Lemma reg_chks_lookup svcs (chks old : gmap N chk) k :
-  (omap (stamp svcs) chks ∪ old) !! k =
+  merge (reg_chk svcs) chks old !! k =
   match chks !! k with
-  | Some d => match stamp svcs d with Some r => Some r | None => old !! k end
+  | Some d => match stamp svcs d with Some r => Some (keep_same (old !! k) r) | None => old !! k end
   | None => old !! k
   end.
 Proof.
-  rewrite lookup_union, lookup_omap.
-  destruct (chks !! k) as [d|]; cbn.
-  - destruct (stamp svcs d); cbn; destruct (old !! k); reflexivity.
-  - destruct (old !! k); reflexivity.
+  rewrite lookup_merge. unfold reg_chk.
+  destruct (chks !! k) as [d|], (old !! k); cbn; try reflexivity; destruct (stamp svcs d); reflexivity.
 Qed.
 
 (* ------------------------------------------------------------------ deregister *)
